@@ -14,6 +14,9 @@
 (*   <<"X", << <<i, q>>.. >> >>  barrier: events injected into partition q     *)
 (*   <<"A", n, s>>     next window end (n ticks, s short) | <<"A", -1, 0>> stop *)
 (*   <<"I", p, i, t>>  independent mode delivery                               *)
+(*   <<"C">>           run() raised during the barrier exchange                 *)
+(*   optional fields: ovl << <<p,q>>.. >> links declaring a LatencyDistribution, *)
+(*   err "" | "no_sample" | "other" how run() ended                             *)
 (*   <<"end">>                                                                 *)
 (* One verdict line per trace: <<"V", id, verdict, pos>>                       *)
 (*   "ACCEPT"                                                                  *)
@@ -43,7 +46,8 @@ TEv(T) == [k \in 1..Len(T.evs) |-> [t |-> T.evs[k][1], tgt |-> T.evs[k][2], par 
 
 \* state of Windowed.tla at the first window of the partitioned run of trace T
 LoadState(T) ==
-    LET c == [ep |-> T.ep, np |-> T.np, links |-> TLinks(T), endT |-> T.endT]
+    LET c == [ep |-> T.ep, np |-> T.np, links |-> TLinks(T), endT |-> T.endT,
+              ovl |-> IF "ovl" \in DOMAIN T THEN { <<x[1], x[2]>> : x \in Rng(T.ovl) } ELSE {}]
         e == TEv(T)
         P == 1..T.np
     IN [conf |-> c, lat |-> TLat(T), w |-> T.w, ev |-> e,
@@ -146,6 +150,9 @@ StepRec(r) ==
            /\ Follow(ExchangeGuard /\ { <<x[1], x[2]>> : x \in Rng(r[2]) } = { <<c, PartEv(c)>> : c \in Arriving }
                         /\ Len(r[2]) = Cardinality(Arriving),
                      Exchange, "exchange")
+      [] r[1] = "C" ->
+           /\ ObsNone
+           /\ Follow(ExchangeGuard /\ Crashes, ExchangeCrash, "crash")
       [] r[1] = "A" ->
            /\ UNCHANGED <<olog, oclk, oovr, wild, known, oinj>> /\ NoFlag
            /\ oend' = (IF r[2] = -1 THEN oend ELSE r[2] - r[3])
@@ -158,7 +165,7 @@ StepRec(r) ==
       [] r[1] = "end" ->
            /\ ObsNone
            /\ Follow(IF Tr.mode = "indep" THEN phase = "par" /\ \A p \in Parts : ~IndepCanPop(p)
-                     ELSE phase = "done", UNCHANGED vars, "termination")
+                     ELSE Over, UNCHANGED vars, "termination")
       [] OTHER -> ObsNone /\ Mismatch("unknown_record")
 
 \* ---- verdict at the end of a trace: the C05 contract on the two observed logs -------
@@ -177,6 +184,7 @@ Stranded ==
                                     /\ Tr.evs[i][1] >= oovr[q] /\ Tr.evs[i][1] < oclk[q] }
 Explained(i) == Anc(i) \cap (known \cup Stranded) # {}
 JudgedT(t) == Tr.endT = Inf \/ t < Tr.endT
+TErr == IF "err" \in DOMAIN Tr THEN Tr.err ELSE ""
 ObsSet(lg) == UNION { { <<e, lg[e][k][1], lg[e][k][2]>> : k \in 1..Len(lg[e]) } : e \in DOMAIN lg }
 FinalVerdict ==
     LET OD == { x \in ObsSet(olog) : JudgedT(x[3]) }
@@ -185,6 +193,9 @@ FinalVerdict ==
         retimed == { x \in missing : \E y \in ObsSet(olog) : y[2] = x[2] }
         extra == OD \ SD
     IN IF bad # "" THEN <<bad, badpos>>
+       ELSE IF TErr = "no_sample" /\ "link_latency_no_sample" \in Dev /\ missing # {}
+            THEN <<"PROP:run_aborted:link_latency_no_sample", 0>>
+       ELSE IF TErr # "" /\ missing # {} THEN <<"PROP:run_raised", 0>>
        ELSE IF Tr.mode = "indep" /\ \E e \in DOMAIN olog : olog[e] # Tr.seq[e]
             THEN <<"PROP:independent_differs", 0>>
        ELSE IF retimed # {} THEN <<"PROP:delivery_time", 0>>
